@@ -17,16 +17,24 @@ pub struct Flat {
     pub unit: f64,
     /// prefixes of the per-step vectors (path without the step index)
     pub tkeys: Vec<String>,
+    /// per-m2 values as a report prints them: the digits of format!("{:.2}") (hundredths), for values below 2e7
+    pub cents: BTreeMap<String, i64>,
 }
 
 impl Flat {
     pub fn new() -> Flat {
-        Flat { m: BTreeMap::new(), nonfinite: vec![], unit: 1.0, tkeys: vec![] }
+        Flat { m: BTreeMap::new(), nonfinite: vec![], unit: 1.0, tkeys: vec![], cents: BTreeMap::new() }
     }
     pub fn put(&mut self, path: String, v: f32, p: i32) {
         if !v.is_finite() {
             self.nonfinite.push(path);
             return;
+        }
+        if path.starts_with("m2.") && self.unit == 1.0 && v.abs() < 2.0e7 {
+            // the same rounding as the writers of the reports (formatting of the f32 with two decimals)
+            if let Ok(c) = format!("{:.2}", v).replace('.', "").parse::<i64>() {
+                self.cents.insert(path[3..].to_string(), c);
+            }
         }
         let x = (v as f64) / self.unit * 10f64.powi(p);
         let r = x.round();
